@@ -14,7 +14,7 @@ from functools import partial, wraps
 from inspect import Parameter, isclass, isfunction, isgeneratorfunction
 from io import BufferedIOBase, IOBase, RawIOBase, TextIOBase
 from traceback import extract_stack, print_stack
-from types import CodeType, FunctionType
+from types import CodeType, FunctionType, UnionType
 from typing import (
     IO, TYPE_CHECKING, AbstractSet, Any, AsyncIterable, AsyncIterator, BinaryIO, Callable, Dict,
     Generator, Iterable, Iterator, List, NewType, Optional, Sequence, Set, TextIO, Tuple, Type,
@@ -752,7 +752,11 @@ def check_type(argname: str, value, expected_type, memo: Optional[_TypeCheckMemo
 
     expected_type = resolve_forwardref(expected_type, memo)
     origin_type = getattr(expected_type, '__origin__', None)
-    if origin_type is not None:
+    if isinstance(expected_type, UnionType):
+        # `X | Y` (PEP 604): has `__args__` like `Union[X, Y]` but no `__origin__`, and is
+        # not a class -- without this it falls through every branch below unchecked.
+        check_union(argname, value, expected_type, memo)
+    elif origin_type is not None:
         checker_func = origin_type_checkers.get(origin_type)
         if checker_func:
             checker_func(argname, value, expected_type, memo)
